@@ -17,6 +17,7 @@
 (*   reuse     <reuse href="#t" a="1"/>                yes    (target)     *)
 (*   specs     <specs>                                 no     yes          *)
 (*   config    <config loop-limit=".." ../>  (loc: << <<"ll", 2>>, .. >>)      *)
+(*   void      <g id=".."/>, <g id=".."><style/></g>: id, no bounding box        *)
 (*                                                                         *)
 (* Values are small naturals.  Expressions:                                *)
 (*   [t:"lit",v]  literal          [t:"var",x]  $x                         *)
